@@ -229,6 +229,10 @@ def run (cfg : Cfg) (P : Prog) : Nat → Task → St → Res
           | none => (.err (errK (.other 9)), σ')
         | r => r
       | .brk => (.brk, σ)
+      | .brkV e =>
+        match run cfg P fuel (.ev e) σ with
+        | (.ok _, σ') => (.brk, σ')
+        | r => r
       | .cont => (.cont, σ)
       | .ret e =>
         match run cfg P fuel (.ev e) σ with
